@@ -328,6 +328,15 @@ def build_sqrt(g):
         return [T]
     with concolic.object_alloc():
         g.ctrace('tr_trnorm4', [('X', 'M44')], base.trnorm, [np.eye(4) + 0.01], sampler=s_near4)
+    # 2-D normalisation (base.trnorm2 exists since fix 7bb8ca6; SO2.norm()/SE2.norm() call it): keeps the direction of the 2nd column
+    g.ctrace('tr_trnorm2_so2', [('X', 'M22')], base.trnorm2, [np.eye(2) + 0.01], sampler=lambda rng: [rnd_so2(rng) + rng.normal(size=(2, 2)) * 0.05])
+
+    def s_near3(rng):
+        T = rnd_se2(rng)
+        T[:2, :2] += rng.normal(size=(2, 2)) * 0.05
+        return [T]
+    with concolic.object_alloc():
+        g.ctrace('tr_trnorm2_se2', [('X', 'M33')], base.trnorm2, [np.eye(3) + 0.01], sampler=s_near3)
     # unit quaternions
     s_q = lambda rng: [rng.normal(size=4) * log_uniform(rng, 1e-3, 1e3)]
     g.ctrace('tr_unit', [('q', 'V4')], base.unit, [[1, 2, 3, 4]], sampler=s_q)
@@ -548,6 +557,31 @@ class Oracle:
             Tn[:3, :3], Tn[:3, 3] = Rn, self.trans(3)
             self.call('trnorm:4x4', 'T3', lambda: base.trnorm(Tn), Tn)
             self.call('SE3.norm', 'T3', lambda: SE3(Tn, check=False).norm().data, Tn, multi=True)
+            self.call('SO3.norm', 'R3', lambda: SO3(Rn, check=False).norm().data, Rn, multi=True)
+            R2n = rnd_so2(rng) + rng.normal(size=(2, 2)) * float(rng.choice([0, 1e-12, 1e-8, 1e-4, 1e-2]))
+            T2n = np.eye(3)
+            T2n[:2, :2], T2n[:2, 2] = R2n, self.trans(2)
+            self.call('trnorm2:2x2', 'R2', lambda: base.trnorm2(R2n), R2n)
+            self.call('trnorm2:3x3', 'T2', lambda: base.trnorm2(T2n), T2n)
+            self.call('SO2.norm', 'R2', lambda: SO2(R2n, check=False).norm().data, R2n, multi=True)
+            self.call('SE2.norm', 'T2', lambda: SE2(T2n, check=False).norm().data, T2n, multi=True)
+            # exponential of the logarithm / twist conversions (trlog: 84bd1d7, trlog2: c4462a7): members of every rotation
+            # magnitude, incl. 1e-12..1e-1, pi - (1e-12..1e-1) and exact half-turns
+            mag = float(rng.choice([0.0, math.pi, log_uniform(rng, 1e-12, 1e-1), math.pi - log_uniform(rng, 1e-12, 1e-1), rng.uniform(0, math.pi)]))
+            Rl = rot_from_axis_angle(rand_unit(rng), mag)
+            Tl = np.eye(4)
+            Tl[:3, :3], Tl[:3, 3] = Rl, self.trans(3) * float(rng.choice([1.0, 1e-3]))
+            sg = float(rng.choice([-1.0, 1.0]))
+            El = np.eye(3)
+            El[:2, :2], El[:2, 2] = rot2(sg * mag), Tl[:2, 3]
+            self.call('SO3.Exp(log)', 'R3', lambda: SO3.Exp(SO3(Rl, check=False).log(twist=True)).data, Rl, multi=True)
+            self.call('SE3.Exp(log)', 'T3', lambda: SE3.Exp(SE3(Tl, check=False).log(twist=True)).data, Tl, multi=True)
+            self.call('SE3.Twist3.SE3', 'T3', lambda: SE3(Tl, check=False).Twist3().SE3().data, Tl, multi=True)
+            self.call('SE3.Twist3.exp', 'T3', lambda: SE3(Tl, check=False).Twist3().exp().data, Tl, multi=True)
+            self.call('SO2.Exp(log)', 'R2', lambda: SO2.Exp(SO2(El[:2, :2], check=False).log(twist=True)).data, El[:2, :2], multi=True)
+            self.call('SE2.Exp(log)', 'T2', lambda: SE2.Exp(SE2(El, check=False).log(twist=True)).data, El, multi=True)
+            self.call('SE2.Twist2.SE2', 'T2', lambda: SE2(El, check=False).Twist2().SE2().data, El, multi=True)
+            self.call('SE2.Twist2.exp', 'T2', lambda: SE2(El, check=False).Twist2().exp().data, El, multi=True)
             qv = rng.normal(size=4) * log_uniform(rng, 1e-3, 1e6)
             self.call('unit', 'Q', lambda: base.unit(qv), qv)
             self.call('UnitQuaternion(s,v)', 'Q', lambda: UnitQuaternion(qv[0], qv[1:]).data, qv, multi=True)
@@ -608,7 +642,7 @@ class Oracle:
         if d > -0.99:
             return False
         self.ctx.count('oracle:' + site)
-        self.ctx.fail('oracle:interp:near-antipodal-quaternions:invalid-value',
+        self.ctx.fail('oracle:interp:half-turn-pair:long-arc-invalid-value',
                       f"{site}: interpolation between two nearly equal half-turn orientations returns an invalid value (residual {worst:.3g}): "
                       f"r2q gives quaternions of opposite sign (q0.q1 = {d:.15g}) and trinterp calls slerp without shortest=True",
                       {'site': site, 'inputs_hex': hexl(inputs), 'R0': np.asarray(pair[0], dtype=float).tolist(), 'R1': np.asarray(pair[1], dtype=float).tolist(),
@@ -753,6 +787,8 @@ class Oracle:
             x = self.leaf(cls)
             return f"leaf{hexl(x.A)}", (lambda: x)
         ops = ['mul', 'div', 'inv', 'pow', 'prod'] + (['interp'] if cls in (SO3, SE3, SE2, UnitQuaternion) else [])
+        ops += ['explog'] if cls is not UnitQuaternion else []
+        ops += ['twist'] if cls in (SE3, SE2) else []
         op = str(rng.choice(ops))
         da, fa = self.tree(cls, depth - 1)
 
@@ -784,6 +820,16 @@ class Oracle:
                     return a * b * a
                 return cls([a.A, b.A, a.A], check=False).prod()
             return f"prod[{da}, {db}, {da}]", guarded('prod', (prod, lambda: (fa(), fb())))
+        if op in ('explog', 'twist'):
+            # log re-validates its argument at 100 eps (check=True): the conversion is applied to values the library itself
+            # accepts as members, others pass through unchanged
+            def conv(x):
+                if not all(cls.isvalid(e) for e in x.data):
+                    return x
+                if op == 'explog':
+                    return cls.Exp(x.log(twist=True)) if len(x) == 1 else x
+                return (x.Twist3().SE3() if cls is SE3 else x.Twist2().SE2()) if len(x) == 1 else x
+            return f"{op}({da})", guarded(op, (conv, lambda: (fa(),)))
         s = float(rng.choice([0.0, 1.0, 1e-12, 1 - 1e-12, rng.uniform(0, 1), rng.uniform(0, 1)]))
         return f"interp({da}, {s.hex()})", guarded('interp', ((lambda a: a.interp(s)) if cls is UnitQuaternion else (lambda a: interp_checked(a, s)), lambda: (fa(),)))
 
